@@ -59,6 +59,32 @@ def gen_spec(r: apigen.Rng):
     return spec
 
 
+def stress_specs():
+    """corpus: every per-method construct of the service templates used at least twice with types from DIFFERENT files,
+    so that an import or a registry entry computed from `the first method only` cannot hide"""
+    out = []
+    for tr, extra in (("grpc+rest", []), ("grpc", ["metadata"]), ("rest", ["rest-numeric-enums"])):
+        pkg = "acme.lib.v1"
+        def msg(name, **kw):
+            return {"name": name, "fields": [{"name": "name", "kind": "scalar", "scalar": "string", "key": "string", "target": None, "required": False},
+                                             {"name": "count", "kind": "scalar", "scalar": "int32", "key": "string", "target": None, "required": False}],
+                    "nested": kw.get("nested", False), "resource": kw.get("resource", False), "oneof": False}
+        files = [
+            {"name": "common", "pkg": pkg, "messages": [msg("Alpha", resource=True), msg("Beta")], "enums": [{"name": "Color0", "values": ["COLOR0_UNSPECIFIED", "RED0"]}], "services": []},
+            {"name": "types", "pkg": pkg, "messages": [msg("Gamma", nested=True), msg("Delta", resource=True)], "enums": [], "services": []},
+            {"name": "library", "pkg": pkg, "messages": [msg("Epsilon")], "enums": [], "services": []},
+        ]
+        kinds = [("paged", "Alpha"), ("paged", "Gamma"), ("paged", "Epsilon"), ("lro", "Beta"), ("lro", "Delta"), ("unary", "Gamma"),
+                 ("server", "Alpha"), ("void", "Delta"), ("client", "Beta"), ("bidi", "Gamma")]
+        methods = [{"name": f"Do{t}{i}", "kind": k, "io": (pkg, t), "http": k not in ("client", "bidi"), "sig": k in ("unary", "lro", "void")}
+                   for i, (k, t) in enumerate(kinds)]
+        second = [dict(m, name="Cat" + m["name"]) for m in methods[1:4]]
+        files[2]["services"] = [{"name": "Library", "methods": methods}, {"name": "Catalog", "methods": second}]
+        out.append({"pkg": pkg, "files": files, "dep_pkg": True, "sub": None, "service_in_sub": False, "service_yaml": tr != "rest",
+                    "ads": False, "opts": [f"transport={tr}"] + extra, "transport": tr.split("+")})
+    return out
+
+
 def build(spec):
     files = []
     dep = None
@@ -250,7 +276,10 @@ def run(ctx):
     ctx.assume("the alternative (ads) template set offers no asyncio client or transport: for it only the synchronous surface is checked")
     ctx.assume("Python's parser and importer are not modelled: `parses and imports` is decided by execution on every case")
     r = ctx.rng("general")
-    for i in range(ctx.n(24, 500)):
+    for k, spec in enumerate(stress_specs()):
+        run_case(ctx, spec, f"stress{k}")
+        ctx.case({"stress": k, "opts": spec["opts"]}, distinct_key=["stress", k])
+    for i in range(ctx.n(20, 500)):
         spec = gen_spec(r)
         run_case(ctx, spec, f"case{i}")
         ctx.case({"pkg": spec["pkg"], "opts": spec["opts"], "files": [(f["name"], len(f["messages"]), len(f["services"])) for f in spec["files"]]} if i < 3 else None,
